@@ -7,7 +7,8 @@ from harness.implenv import quiet, Referenceable
 from foolscap import broker, call, slicer, tokens, schema
 from foolscap.api import RemoteInterface
 from foolscap.tokens import Violation, RemoteException
-from foolscap.schema import ListOf, DictOf, TupleOf
+from foolscap.schema import ListOf, DictOf, TupleOf, SetOf, ChoiceOf
+from foolscap.constraint import Optional
 
 
 # ------------------------------------------------------------------ exception classes raised by the remote method
@@ -163,6 +164,61 @@ class RIThing(RemoteInterface):
         return int
 
 
+# ------------------------------------------------------------------ ChoiceOf with a STRICT alternative (round 7)
+# str / bool / None constraints have strictTaster = True: used on their own they call a primitive token of the wrong type a protocol
+# error (BananaError: connection dropped -- C02's known finding oracle/strict-taster-drops-connection, deliberate design).  Inside a
+# ChoiceOf, PolyConstraint.checkToken asks every alternative and turns "nobody wants it" into a Violation: an ill-typed primitive
+# for such a parameter is a per-call fault.  name -> (constraint, how the value is wrapped to reach the ChoiceOf, primitive kinds it
+# accepts).  (Values sent as OPEN sequences -- str, bool, list ... -- under a ChoiceOf hit <X>Unslicer.setConstraint's assertion:
+# C12's known finding oracle/choiceof-container-drops-connection; they are not generated here.)
+CHOICE_SHAPES = [
+    ("bytes|None", ChoiceOf(bytes, None), None, ("bytes", "none")),
+    ("None|bytes", ChoiceOf(None, bytes), None, ("bytes", "none")),
+    ("str|int", ChoiceOf(str, int), None, ("int", "neg", "longint", "longneg")),
+    ("bool|bytes", ChoiceOf(bool, bytes), None, ("bytes",)),
+    ("None|list", ChoiceOf(None, ListOf(int)), None, ("none",)),
+    ("str|None|bool", ChoiceOf(str, None, bool), None, ("none",)),
+    ("(str|None)|bytes", ChoiceOf(ChoiceOf(str, None), bytes), None, ("bytes", "none")),
+    ("optional str|None", Optional(ChoiceOf(str, None), None), None, ("none",)),
+    ("list of str|None", ListOf(ChoiceOf(str, None)), "list", ("none",)),
+    ("dict bytes->bool|None", DictOf(bytes, ChoiceOf(bool, None)), "dict", ("none",)),
+    ("tuple int,None|str", TupleOf(int, ChoiceOf(None, str)), "tuple", ("none",)),
+    ("set of str|None", SetOf(ChoiceOf(str, None)), "set", ("none",)),
+    ("list of list of None|bytes", ListOf(ListOf(ChoiceOf(None, bytes))), "list2", ("bytes", "none")),
+    ("float|None|bool", ChoiceOf(float, None, bool), None, ("int", "neg", "float", "longint", "longneg", "none")),
+    # control: no strict alternative
+    ("bytes|int", ChoiceOf(bytes, int), None, ("bytes", "int", "neg", "longint", "longneg")),
+]
+CHOICE_INDEX = {name: i for i, (name, c, w, acc) in enumerate(CHOICE_SHAPES)}
+CHOICE_TOKENS = {"int": 5, "neg": -5, "float": 1.5, "bytes": b"xy", "longint": 2 ** 70, "longneg": -2 ** 70, "none": None}
+
+
+def choice_constraint(shape):
+    return CHOICE_SHAPES[CHOICE_INDEX[shape]][1]
+
+
+def choice_accepts(shape):
+    return CHOICE_SHAPES[CHOICE_INDEX[shape]][3]
+
+
+def choice_arg(spec):
+    """the value of token kind spec['tok'] at the place of the ChoiceOf inside shape spec['shape']"""
+    v = CHOICE_TOKENS[spec["tok"]]
+    w = CHOICE_SHAPES[CHOICE_INDEX[spec["shape"]]][2]
+    return {None: lambda: v, "list": lambda: [None, v], "list2": lambda: [[], [None, v]], "dict": lambda: {b"j": None, b"k": v},
+            "tuple": lambda: (1, v), "set": lambda: set([v])}[w]()
+
+
+def _choice_method(c):
+    def m(a=c):
+        return int
+    return m
+
+
+RIShapes = type(RemoteInterface)("RIShapes", (RemoteInterface,), dict(
+    [("c%d" % i, _choice_method(c)) for i, (name, c, w, acc) in enumerate(CHOICE_SHAPES)] + [("__remote_name__", "RIC10Shapes.verif")]))
+
+
 EXECUTED = []      # names of the remote methods that really ran on the callee B, in order (reset per batch)
 FAR_EXECUTED = []  # ... on the third party C
 
@@ -260,6 +316,20 @@ class Typed(Referenceable):
     def remote_multi(self, a, b, c):
         EXECUTED.append("multi")
         return len(a) + len(b) + len(c)
+
+
+@implementer(RIShapes)
+class Shapes(Referenceable):
+    """one method per entry of CHOICE_SHAPES; the caller does not know the interface"""
+
+
+def _choice_remote(self, a):
+    EXECUTED.append("choice")
+    return 1
+
+
+for _i in range(len(CHOICE_SHAPES)):
+    setattr(Shapes, "remote_c%d" % _i, _choice_remote)
 
 
 def nest(depth, leaf, sibling=None):
@@ -435,6 +505,8 @@ def setup(opts):
     typed2 = Typed()
     rr_typed_known = export(tb, cb, typed2, RIThing.__remote_name__)   # here the caller knows it too
     rr_bogus = cb.getTrackerForYourReference(9999, None).getRef()
+    shapes = Shapes()
+    rr_shapes = export(tb, cb, shapes)   # the caller does not know the interface (a peer that does not pre-check)
     # B -> C
     c_b, b_c = pair(TUB_C, TUB_B, vocab)
     c_b.unsafeTracebacks = b_c.unsafeTracebacks = bool(opts.get("unsafe", True))
@@ -448,8 +520,8 @@ def setup(opts):
     thing = Thing()
     hint = "tcp:c.example.org:1234" if gm != "unresolvable" else "fake:nosuch:1"
     rr_thing = export(c_a, a_c, thing, url="pb://%s@%s/thing" % (TUB_C, hint))
-    rrs = dict(plain=rr_plain, badrepr=rr_badrepr, typed=rr_typed, typed_known=rr_typed_known, bogus=rr_bogus, relay=rr_relay, thing=rr_thing)
-    keep = (plain, typed, typed2, far, relay, thing, badrepr, c_b, b_c, c_a, a_c, net)
+    rrs = dict(plain=rr_plain, badrepr=rr_badrepr, typed=rr_typed, typed_known=rr_typed_known, bogus=rr_bogus, relay=rr_relay, thing=rr_thing, shapes=rr_shapes)
+    keep = (shapes, plain, typed, typed2, far, relay, thing, badrepr, c_b, b_c, c_a, a_c, net)
     return tb, cb, rrs, keep
 
 
@@ -502,7 +574,7 @@ class _OneWay:
         return None
 
 
-ONE_WAY_TARGETS = ("plain", "badrepr", "typed", "typed_known", "bogus", "relay")
+ONE_WAY_TARGETS = ("plain", "badrepr", "typed", "typed_known", "bogus", "relay", "shapes")
 
 
 def issue(rrs, spec):
@@ -552,6 +624,11 @@ def issue(rrs, spec):
         if spec["depth"] == 2:
             bad = [[[1]], "x"]
         return rrs["typed"].callRemote(meth, bad)
+    if k in ("illtyped-choice", "choice-ok"):
+        # a primitive token none (illtyped-choice) / one (choice-ok) of the alternatives of the callee's ChoiceOf accepts
+        return rrs["shapes"].callRemote("c%d" % CHOICE_INDEX[spec["shape"]], choice_arg(spec))
+    if k == "result-choice":        # the same on the caller: the RESULT is governed by the ChoiceOf, the callee sends what it likes
+        return rrs["plain"].callRemote("echo", choice_arg(spec), _resultConstraint=choice_constraint(spec["shape"]))
     if k == "mixed-keys":
         return rrs["plain"].callRemote("echo", {1: 2, 'a': 3})
     if k == "dict-keys":            # keys that cannot be ordered, at nesting depth d; echo sends the dict back: both directions
